@@ -536,6 +536,316 @@ Theorem C08_hash_path_points_full :
 Proof. exact (v_hash_path_spec QL QL_ok). Qed.
 Print Assumptions C08_hash_path_points_full.
 
+(* 7. THE REAL NUMBERS.  The line is instantiated with an arbitrary real closed field R (`realfield` = MathComp's rcfType):
+   carrier R, order and field operations of R, integers / dyadics / rationals embedded as ring elements, an algebraic payload
+   denoting THE real number given by the reference semantics rn_denotes (ValueReal.rden).  C08_real_line discharges
+   EVERY premise of `line_ok` - the order/field laws from R, the payload obligations (A_cmp_q A_cmp A_add A_mul A_neg A_inv
+   A_refine A_lin P_RA D_RQ) from the proved reference (Properties_Base: Base_rn_cmp_q Base_rn_cmp Base_rn_add Base_rn_mul
+   Base_rn_neg Base_rn_inv Base_rn_refine) - so the `_real_full` theorems below carry NO premise besides the
+   representation invariants (`vok (real_line R) v`: canonical rational / normalised dyadic / a payload that denotes a
+   real number with canonical interval ends, which C08_real_valid derives from the drivers' check rn_valid; `int_free`
+   where the code relies on it).  Fuelled reference operations: every statement is "whenever the model answers".
+   The names real_* are plain-syntax aliases defined in ValueReal.v (real_lt R a b := a < b in R, ...). *)
+From LP Require Import ValueReal.
+(* every real closed field is a line: ALL premises of the _cond theorems hold, the payload obligations by Properties_Base *)
+Theorem C08_real_line :
+  forall R : realfield, line_ok (real_line R).
+Proof. exact (real_line_ok). Qed.
+Print Assumptions C08_real_line.
+(* its operations are the field operations *)
+Theorem C08_real_line_ops :
+  forall (R : realfield) (a b : LR (real_line R)),
+  Ladd (real_line R) a b = real_add (R:=R) a b /\
+  Lmul (real_line R) a b = real_mul (R:=R) a b /\ Lopp (real_line R) a = real_opp (R:=R) a.
+Proof. exact (real_line_ops). Qed.
+Print Assumptions C08_real_line_ops.
+(* its order is the order of the field *)
+Theorem C08_real_line_lt :
+  forall (R : realfield) (a b : LR (real_line R)), Lcmp (real_line R) a b = Lt <-> real_lt (R:=R) a b.
+Proof. exact (real_line_lt). Qed.
+Print Assumptions C08_real_line_lt.
+Theorem C08_real_line_eq :
+  forall (R : realfield) (a b : LR (real_line R)), Lcmp (real_line R) a b = Eq <-> a = b.
+Proof. exact (real_line_eq). Qed.
+Print Assumptions C08_real_line_eq.
+(* an algebraic payload denotes THE real number the reference semantics (RefAlgSpec.rn_denotes) gives it *)
+Theorem C08_real_den_alg :
+  forall (R : realfield) (x : rnum) (v : LR (real_line R)),
+  real_denotes (R:=R) x v -> rn_canon x -> vok (real_line R) (VAlg x) /\ den (real_line R) (VAlg x) = EFin v.
+Proof. exact (real_line_den_alg). Qed.
+Print Assumptions C08_real_den_alg.
+(* every representation accepted by the drivers' validity check (rn_valid) is covered *)
+Theorem C08_real_valid :
+  forall (R : realfield) (x : rnum), rn_valid x = true -> vok (real_line R) (VAlg (rn_norm x)).
+Proof. exact (real_line_valid). Qed.
+Print Assumptions C08_real_valid.
+Theorem C08_real_den_int :
+  forall (R : realfield) (z : Z), den (real_line R) (VInt z) = EFin (real_of_Z R z).
+Proof. exact (real_line_den_int). Qed.
+Print Assumptions C08_real_den_int.
+Theorem C08_real_den_rat :
+  forall (R : realfield) (q : Z * Z), q_wf q -> den (real_line R) (VRat q) = EFin (real_of_rat R q).
+Proof. exact (real_line_den_rat). Qed.
+Print Assumptions C08_real_den_rat.
+Theorem C08_cmp_real_full :
+  forall (R : realfield) (fuel : nat) (u v : value) (c : Z),
+  vok (real_line R) u ->
+  vok (real_line R) v ->
+  v_cmp fuel u v = ROk c -> Z.sgn c = cmp_to_Z (ecmp (real_line R) (den (real_line R) u) (den (real_line R) v)).
+Proof. exact (fun R : realfield => v_cmp_spec (real_line R) (real_line_ok R)). Qed.
+Print Assumptions C08_cmp_real_full.
+Theorem C08_cmp_antisym_real_full :
+  forall (R : realfield) (fuel : nat) (u v : value) (c c' : Z),
+  vok (real_line R) u ->
+  vok (real_line R) v -> v_cmp fuel u v = ROk c -> v_cmp fuel v u = ROk c' -> Z.sgn c' = (- Z.sgn c)%Z.
+Proof. exact (fun R : realfield => v_cmp_antisym (real_line R) (real_line_ok R)). Qed.
+Print Assumptions C08_cmp_antisym_real_full.
+Theorem C08_cmp_trans_real_full :
+  forall (R : realfield) (fuel : nat) (u v w : value) (c1 c2 c3 : Z),
+  vok (real_line R) u ->
+  vok (real_line R) v ->
+  vok (real_line R) w ->
+  v_cmp fuel u v = ROk c1 ->
+  v_cmp fuel v w = ROk c2 -> v_cmp fuel u w = ROk c3 -> (c1 <= 0)%Z -> (c2 <= 0)%Z -> (c3 <= 0)%Z.
+Proof. exact (fun R : realfield => v_cmp_trans (real_line R) (real_line_ok R)). Qed.
+Print Assumptions C08_cmp_trans_real_full.
+Theorem C08_cmp_eq_iff_real_full :
+  forall (R : realfield) (fuel : nat) (u v : value) (c : Z),
+  vok (real_line R) u ->
+  vok (real_line R) v ->
+  v_cmp fuel u v = ROk c -> c = 0%Z <-> eeq (real_line R) (den (real_line R) u) (den (real_line R) v).
+Proof. exact (fun R : realfield => v_cmp_eq_iff (real_line R) (real_line_ok R)). Qed.
+Print Assumptions C08_cmp_eq_iff_real_full.
+Theorem C08_cmp_lt_iff_real_full :
+  forall (R : realfield) (fuel : nat) (u v : value) (c : Z),
+  vok (real_line R) u ->
+  vok (real_line R) v ->
+  v_cmp fuel u v = ROk c -> (c < 0)%Z <-> ecmp (real_line R) (den (real_line R) u) (den (real_line R) v) = Lt.
+Proof. exact (fun R : realfield => v_cmp_lt_iff (real_line R) (real_line_ok R)). Qed.
+Print Assumptions C08_cmp_lt_iff_real_full.
+Theorem C08_cmp_repr_indep_real_full :
+  forall (R : realfield) (fuel : nat) (u u' v v' : value) (c c' : Z),
+  vok (real_line R) u ->
+  vok (real_line R) u' ->
+  vok (real_line R) v ->
+  vok (real_line R) v' ->
+  eeq (real_line R) (den (real_line R) u) (den (real_line R) u') ->
+  eeq (real_line R) (den (real_line R) v) (den (real_line R) v') ->
+  v_cmp fuel u v = ROk c -> v_cmp fuel u' v' = ROk c' -> Z.sgn c = Z.sgn c'.
+Proof. exact (fun R : realfield => cmp_repr_indep (real_line R) (real_line_ok R)). Qed.
+Print Assumptions C08_cmp_repr_indep_real_full.
+Theorem C08_cmp_rational_real_full :
+  forall (R : realfield) (v : value) (q : rat) (c : Z),
+  vok (real_line R) v ->
+  q_wf q ->
+  v_cmp_rational v q = ROk c ->
+  Z.sgn c = cmp_to_Z (ecmp (real_line R) (den (real_line R) v) (EFin (LQ (real_line R) (QofR q)))).
+Proof. exact (fun R : realfield => v_cmp_rational_spec (real_line R) (real_line_ok R)). Qed.
+Print Assumptions C08_cmp_rational_real_full.
+Theorem C08_sgn_real_full :
+  forall (R : realfield) (v : value),
+  vok (real_line R) v -> v_sgn v = cmp_to_Z (ecmp (real_line R) (den (real_line R) v) (ezero (real_line R))).
+Proof. exact (fun R : realfield => v_sgn_spec (real_line R) (real_line_ok R)). Qed.
+Print Assumptions C08_sgn_real_full.
+Theorem C08_add_real_full :
+  forall (R : realfield) (fuel : nat) (u v w : value),
+  vok (real_line R) u ->
+  vok (real_line R) v ->
+  v_add fuel u v = ROk w ->
+  vok (real_line R) w /\
+  (exists e : ext (LR (real_line R)),
+  eadd (real_line R) (den (real_line R) u) (den (real_line R) v) = Some e /\
+  eeq (real_line R) (den (real_line R) w) e).
+Proof. exact (fun R : realfield => v_add_spec (real_line R) (real_line_ok R)). Qed.
+Print Assumptions C08_add_real_full.
+Theorem C08_neg_real_full :
+  forall (R : realfield) (u : value),
+  vok (real_line R) u ->
+  vok (real_line R) (v_neg u) /\
+  eeq (real_line R) (den (real_line R) (v_neg u)) (eneg (real_line R) (den (real_line R) u)).
+Proof. exact (fun R : realfield => v_neg_spec (real_line R) (real_line_ok R)). Qed.
+Print Assumptions C08_neg_real_full.
+Theorem C08_sub_real_full :
+  forall (R : realfield) (fuel : nat) (u v w : value),
+  vok (real_line R) u ->
+  vok (real_line R) v ->
+  v_sub fuel u v = ROk w ->
+  vok (real_line R) w /\
+  (exists e : ext (LR (real_line R)),
+  esub (real_line R) (den (real_line R) u) (den (real_line R) v) = Some e /\
+  eeq (real_line R) (den (real_line R) w) e).
+Proof. exact (fun R : realfield => v_sub_spec (real_line R) (real_line_ok R)). Qed.
+Print Assumptions C08_sub_real_full.
+Theorem C08_mul_real_full :
+  forall (R : realfield) (fuel : nat) (u v w : value),
+  vok (real_line R) u ->
+  vok (real_line R) v ->
+  v_mul fuel u v = ROk w ->
+  vok (real_line R) w /\
+  (exists e : ext (LR (real_line R)),
+  emul (real_line R) (den (real_line R) u) (den (real_line R) v) = Some e /\
+  eeq (real_line R) (den (real_line R) w) e).
+Proof. exact (fun R : realfield => v_mul_spec (real_line R) (real_line_ok R)). Qed.
+Print Assumptions C08_mul_real_full.
+Theorem C08_mul_undef_iff_real_full :
+  forall (R : realfield) (fuel : nat) (u v : value),
+  vok (real_line R) u ->
+  vok (real_line R) v ->
+  v_mul fuel u v = RUndef <-> emul (real_line R) (den (real_line R) u) (den (real_line R) v) = None.
+Proof. exact (fun R : realfield => v_mul_undef_iff (real_line R) (real_line_ok R)). Qed.
+Print Assumptions C08_mul_undef_iff_real_full.
+Theorem C08_inv_real_full :
+  forall (R : realfield) (fuel : nat) (a w : value),
+  vok (real_line R) a ->
+  v_inv fuel a = ROk w ->
+  vok (real_line R) w /\
+  match den (real_line R) a with
+  | EFin x =>
+  exists y : LR (real_line R),
+  den (real_line R) w = EFin y /\ Leq (real_line R) (Lmul (real_line R) y x) (LQ (real_line R) 1)
+  | _ => eeq (real_line R) (den (real_line R) w) (ezero (real_line R))
+  end.
+Proof. exact (fun R : realfield => v_inv_spec (real_line R) (real_line_ok R)). Qed.
+Print Assumptions C08_inv_real_full.
+Theorem C08_inv_undef_iff_real_full :
+  forall (R : realfield) (fuel : nat) (a : value),
+  vok (real_line R) a -> v_inv fuel a = RUndef <-> eeq (real_line R) (den (real_line R) a) (ezero (real_line R)).
+Proof. exact (fun R : realfield => v_inv_undef_iff (real_line R) (real_line_ok R)). Qed.
+Print Assumptions C08_inv_undef_iff_real_full.
+Theorem C08_div_real_full :
+  forall (R : realfield) (fuel : nat) (a b w : value),
+  vok (real_line R) a ->
+  vok (real_line R) b ->
+  v_div fuel a b = ROk w ->
+  vok (real_line R) w /\
+  (exists bi : value,
+  v_inv fuel b = ROk bi /\
+  vok (real_line R) bi /\
+  (exists e : ext (LR (real_line R)),
+  emul (real_line R) (den (real_line R) a) (den (real_line R) bi) = Some e /\
+  eeq (real_line R) (den (real_line R) w) e)).
+Proof. exact (fun R : realfield => v_div_spec (real_line R) (real_line_ok R)). Qed.
+Print Assumptions C08_div_real_full.
+Theorem C08_pow_real_full :
+  forall (R : realfield) (fuel : nat) (a : value) (n : N) (w : value),
+  vok (real_line R) a ->
+  v_pow fuel a n = ROk w ->
+  vok (real_line R) w /\
+  match den (real_line R) a with
+  | EMinf => den (real_line R) w = (if N.odd n then EMinf else EPinf)
+  | EFin x =>
+  exists z : LR (real_line R),
+  den (real_line R) w = EFin z /\ Leq (real_line R) z (Lpow (real_line R) x (N.to_nat n))
+  | EPinf => den (real_line R) w = EPinf
+  end.
+Proof. exact (fun R : realfield => v_pow_spec (real_line R) (real_line_ok R)). Qed.
+Print Assumptions C08_pow_real_full.
+Theorem C08_floor_real_full :
+  forall (R : realfield) (v : value) (z : Z),
+  vok (real_line R) v ->
+  int_free v ->
+  v_floor v = ROk z -> exists x : LR (real_line R), den (real_line R) v = EFin x /\ is_floor (real_line R) z x.
+Proof. exact (fun R : realfield => v_floor_spec (real_line R) (real_line_ok R)). Qed.
+Print Assumptions C08_floor_real_full.
+Theorem C08_ceiling_real_full :
+  forall (R : realfield) (v : value) (z : Z),
+  vok (real_line R) v ->
+  int_free v ->
+  v_ceiling v = ROk z ->
+  exists x : LR (real_line R), den (real_line R) v = EFin x /\ is_ceiling (real_line R) z x.
+Proof. exact (fun R : realfield => v_ceiling_spec (real_line R) (real_line_ok R)). Qed.
+Print Assumptions C08_ceiling_real_full.
+Theorem C08_is_integer_real_full :
+  forall (R : realfield) (v : value),
+  vok (real_line R) v ->
+  int_free v ->
+  v_is_integer v = true <->
+  (exists z : Z, eeq (real_line R) (den (real_line R) v) (EFin (LQ (real_line R) (inject_Z z)))).
+Proof. exact (fun R : realfield => v_is_integer_spec (real_line R) (real_line_ok R)). Qed.
+Print Assumptions C08_is_integer_real_full.
+Theorem C08_is_rational_sound_real_full :
+  forall (R : realfield) (v : value),
+  vok (real_line R) v ->
+  v_is_rational v = true ->
+  exists q : rat,
+  v_get_rational v = ROk q /\
+  q_wf q /\ eeq (real_line R) (den (real_line R) v) (EFin (LQ (real_line R) (QofR q))).
+Proof. exact (fun R : realfield => v_is_rational_sound (real_line R) (real_line_ok R)). Qed.
+Print Assumptions C08_is_rational_sound_real_full.
+Theorem C08_get_rational_real_full :
+  forall (R : realfield) (v : value) (q : rat),
+  vok (real_line R) v ->
+  v_get_rational v = ROk q ->
+  q_wf q /\ eeq (real_line R) (den (real_line R) v) (EFin (LQ (real_line R) (QofR q))).
+Proof. exact (fun R : realfield => v_get_rational_spec (real_line R) (real_line_ok R)). Qed.
+Print Assumptions C08_get_rational_real_full.
+Theorem C08_num_den_real_full :
+  forall (R : realfield) (v : value) (n d : Z),
+  vok (real_line R) v ->
+  v_get_num v = ROk n ->
+  v_get_den v = ROk d ->
+  v_is_rational v = true /\
+  q_wf (n, d) /\ eeq (real_line R) (den (real_line R) v) (EFin (LQ (real_line R) (QofR (n, d)))).
+Proof. exact (fun R : realfield => v_get_num_den_spec (real_line R) (real_line_ok R)). Qed.
+Print Assumptions C08_num_den_real_full.
+Theorem C08_num_den_repr_indep_real_full :
+  forall (R : realfield) (u v : value) (n d n' d' : Z),
+  vok (real_line R) u ->
+  vok (real_line R) v ->
+  eeq (real_line R) (den (real_line R) u) (den (real_line R) v) ->
+  v_get_num u = ROk n -> v_get_den u = ROk d -> v_get_num v = ROk n' -> v_get_den v = ROk d' -> n = n' /\ d = d'.
+Proof. exact (fun R : realfield => num_den_repr_indep (real_line R) (real_line_ok R)). Qed.
+Print Assumptions C08_num_den_repr_indep_real_full.
+Theorem C08_floor_repr_indep_real_full :
+  forall (R : realfield) (u v : value) (a b : Z),
+  vok (real_line R) u ->
+  vok (real_line R) v ->
+  int_free u ->
+  int_free v ->
+  eeq (real_line R) (den (real_line R) u) (den (real_line R) v) ->
+  v_floor u = ROk a -> v_floor v = ROk b -> a = b.
+Proof. exact (fun R : realfield => floor_repr_indep (real_line R) (real_line_ok R)). Qed.
+Print Assumptions C08_floor_repr_indep_real_full.
+Theorem C08_between_real_full :
+  forall (R : realfield) (fuel : nat) (a : value) (sa : bool) (b : value) (sb : bool) (v : value),
+  vok (real_line R) a ->
+  vok (real_line R) b ->
+  v_between fuel a sa b sb = ROk v ->
+  vok (real_line R) v /\
+  match ecmp (real_line R) (den (real_line R) a) (den (real_line R) b) with
+  | Gt => within (real_line R) (den (real_line R) b) sb (den (real_line R) v) (den (real_line R) a) sa
+  | _ => within (real_line R) (den (real_line R) a) sa (den (real_line R) v) (den (real_line R) b) sb
+  end.
+Proof. exact (fun R : realfield => v_between_spec (real_line R) (real_line_ok R)). Qed.
+Print Assumptions C08_between_real_full.
+Theorem C08_between_prefers_int_real_full :
+  forall (R : realfield) (fuel : nat) (a : value) (sa : bool) (b : value) (sb : bool) (v : value) (k : Z),
+  vok (real_line R) a ->
+  vok (real_line R) b ->
+  int_free a ->
+  int_free b ->
+  v_between fuel a sa b sb = ROk v ->
+  match ecmp (real_line R) (den (real_line R) a) (den (real_line R) b) with
+  | Eq => False
+  | Lt =>
+  within (real_line R) (den (real_line R) a) sa (EFin (LQ (real_line R) (inject_Z k)))
+  (den (real_line R) b) sb
+  | Gt =>
+  within (real_line R) (den (real_line R) b) sb (EFin (LQ (real_line R) (inject_Z k)))
+  (den (real_line R) a) sa
+  end -> v_is_integer v = true.
+Proof. exact (fun R : realfield => v_between_prefers_int (real_line R) (real_line_ok R)). Qed.
+Print Assumptions C08_between_prefers_int_real_full.
+Theorem C08_hash_path_real_full :
+  forall (R : realfield) (prec : N) (u v : value),
+  vok (real_line R) u ->
+  vok (real_line R) v ->
+  int_free u ->
+  int_free v ->
+  eeq (real_line R) (den (real_line R) u) (den (real_line R) v) -> v_hash_path prec u = v_hash_path prec v.
+Proof. exact (fun R : realfield => v_hash_path_spec (real_line R) (real_line_ok R)). Qed.
+Print Assumptions C08_hash_path_real_full.
+
 (* ---- non-vacuity: the hypotheses are satisfiable and the functions compute *)
 Local Open Scope Z_scope.
 Definition ex_sqrt2 := VAlg (RA [-2; 0; 1] (1, 1) (2, 1)).
@@ -570,3 +880,8 @@ Example C08_ex_floor :
   v_floor ex_sqrt2 = ROk 1 /\ v_ceiling ex_sqrt2 = ROk 2 /\ v_is_integer ex_sqrt2 = false /\
   v_get_num (VDy (mkDy 3 2)) = ROk 3 /\ v_get_den (VDy (mkDy 3 2)) = ROk 4.
 Proof. vm_compute. repeat split. Qed.
+(* a proper algebraic payload (sqrt 2) satisfies the invariant of the real-number instance, in every real closed field *)
+Example C08_ex_real : forall R : realfield,
+  vok (real_line R) (VAlg (rn_norm (RA [-2; 0; 1] (1, 1) (2, 1)))) /\
+  vok (real_line R) (VAlg (rn_norm (RA [2; -6; -1; 3] (0, 1) (1, 1)))).
+Proof. intros R. split; apply C08_real_valid; vm_compute; reflexivity. Qed.
